@@ -611,6 +611,21 @@ class SchedSim(object):
                 if m:
                     self.bad('C04', 'fitting_task_failed:search_crashed:%s' % m.group(1),
                              '%s %s failed: %s' % (uid, self._tdsum(td), msg[:300]))
+        # a colocate tag used for the first time places no restriction (with `exclusive` only as
+        # long as a node without tag is left: once every node carries a tag the flag is dropped)
+        tags = td.get('tags') or {}
+        tag  = tags.get('colocate')
+        if tag is not None and not progress_ok and 'can never be scheduled' in msg:
+            spec2 = dict(spec, td=dict(td, tags={}))
+            tagged = set()
+            for nodes in self.colo.values():
+                tagged.update(nodes)
+            unrestricted = str(tag) not in self.colo and \
+                (not tags.get('exclusive') or len(tagged) >= self.L['n'])
+            if unrestricted and self._progress_domain(spec2) and self.fits(td, idle=True):
+                self.stats['first_use_tag_judged'] = self.stats.get('first_use_tag_judged', 0) + 1
+                self.bad('C04', 'fitting_task_failed:never:first_use_of_tag', '%s %s failed: %s'
+                         % (uid, self._tdsum(td), msg[:200]))
         if not self.per_rank_fits_node(td):
             self.stats['oversize_rejected'] += 1
 
@@ -826,7 +841,10 @@ class SchedSim(object):
     def finish_bulk(self, k, n):
         """several tasks collected in one executor pass are released with ONE message (a list),
         as Popen._check_running publishes them"""
-        live = [u for u in self.hold_seq if u in self.holders and not self.holders[u]['app']]
+        live = []
+        for u in self.hold_seq:          # (a task started twice is listed twice)
+            if u in self.holders and not self.holders[u]['app'] and u not in live:
+                live.append(u)
         if len(live) < 2:
             return self.finish(k)
         start = k % len(live)
